@@ -206,9 +206,90 @@ func (p *Prog) allocName(a *ssa.Alloc) string {
 				}
 			}
 		}
-		return "var:" + a.Comment
+		return "var:" + p.localName(a)
 	}
 	return "var:" + a.Name()
+}
+
+// namedLocals lists the named locals of fn that live in memory (ssa Allocs carrying the source name,
+// parameters excluded), in order of appearance, as (name, type) pairs.
+func namedLocals(fn *ssa.Function) [][2]string {
+	isParam := map[string]bool{}
+	for _, prm := range fn.Params {
+		isParam[prm.Name()] = true
+	}
+	var out [][2]string
+	seen := map[string]bool{}
+	for _, in := range allInstrs(fn) {
+		a, ok := in.(*ssa.Alloc)
+		if !ok || a.Comment == "" || isParam[a.Comment] || strings.ContainsAny(a.Comment, " .()") {
+			continue
+		}
+		k := a.Comment + "\x00" + a.Type().String()
+		if seen[k] {
+			continue
+		}
+		seen[k] = true
+		out = append(out, [2]string{a.Comment, a.Type().String()})
+	}
+	return out
+}
+
+// localName renders a named local under its baseline name: names present in both the baseline and the
+// current function map to themselves; if the remaining names are equally many on both sides and agree
+// in type position by position, they are renames of one another. Anything else keeps the current name.
+func (p *Prog) localName(a *ssa.Alloc) string {
+	fn := a.Parent()
+	if fn == nil || p.Locals == nil {
+		return a.Comment
+	}
+	key := p.FuncKey(fn)
+	m, done := p.localMap[key]
+	if !done {
+		m = map[string]string{}
+		if base, ok := p.Locals[key]; ok {
+			cur := namedLocals(fn)
+			inBase, inCur := map[string]bool{}, map[string]bool{}
+			for _, b := range base {
+				inBase[b[0]] = true
+			}
+			for _, c := range cur {
+				inCur[c[0]] = true
+			}
+			var ub, uc [][2]string
+			for _, b := range base {
+				if !inCur[b[0]] {
+					ub = append(ub, b)
+				}
+			}
+			for _, c := range cur {
+				if !inBase[c[0]] {
+					uc = append(uc, c)
+				}
+			}
+			if len(ub) == len(uc) && len(ub) > 0 {
+				ok := true
+				for i := range ub {
+					if ub[i][1] != uc[i][1] {
+						ok = false
+					}
+				}
+				if ok {
+					for i := range ub {
+						m[uc[i][0]] = ub[i][0]
+					}
+				}
+			}
+		}
+		if p.localMap == nil {
+			p.localMap = map[string]map[string]string{}
+		}
+		p.localMap[key] = m
+	}
+	if b, ok := m[a.Comment]; ok {
+		return b
+	}
+	return a.Comment
 }
 
 // paramName renders a parameter under the name it had when the rule tables were written
